@@ -49,6 +49,7 @@ use std::sync::{Arc, Mutex};
 use std::time::{Duration, Instant};
 use steel::gc::unsafe_erased_pointers::CustomReference;
 use steel::rvals::{FromSteelVal, IntoSteelVal};
+use steel::steel_vm::builtin::BuiltInModule;
 use steel::steel_vm::engine::{Engine, LifetimeGuard};
 use steel::steel_vm::register_fn::{MarkerWrapper7, MarkerWrapper8, RegisterFn};
 use steel::SteelVal;
@@ -152,7 +153,30 @@ fn cell_pair(t: &mut Tok, k: i64, a: &mut Cell, b: &mut Cell) -> i64 {
     a.value + b.value + k
 }
 
+/// Signature shapes with a lent receiver and a slice parameter: `Fn(&mut SELF, &[INNER], F)` and
+/// `Fn(&mut SELF, &[INNER])`.  The same function is registered on the engine and in a built-in module
+/// (the wrappers are generated separately for Engine and BuiltInModule).
+fn cell_addall(c: &mut Cell, xs: &[i64], k: i64) -> i64 {
+    touch(&c.name, &c.scope, "addall");
+    record_call("cell-addall", vec![Value::Array(xs.iter().map(|x| x.to_json()).collect()), k.to_json()]);
+    c.value.wrapping_add(xs.iter().fold(0i64, |a, b| a.wrapping_add(*b))).wrapping_add(k)
+}
+fn cell_sumall(c: &mut Cell, xs: &[i64]) -> i64 {
+    touch(&c.name, &c.scope, "sumall");
+    record_call("cell-sumall", vec![Value::Array(xs.iter().map(|x| x.to_json()).collect())]);
+    c.value.wrapping_add(xs.iter().fold(0i64, |a, b| a.wrapping_add(*b)))
+}
+
 fn register_nursery(e: &mut Engine) {
+    e.register_fn("cell-addall", cell_addall);
+    e.register_fn("cell-sumall", cell_sumall);
+    let mut m = BuiltInModule::new("verif/host");
+    m.register_fn("m-cell-addall", cell_addall);
+    m.register_fn("m-cell-sumall", cell_sumall);
+    m.register_fn("m-cell-get-mut", Cell::get_mut);
+    m.register_fn("m-f2", |a: i32, b: String| -> i32 { record_call("m-f2", vec![a.to_json(), b.to_json()]); 2 });
+    e.register_module(m);
+    e.run("(require-builtin verif/host)").expect("require-builtin verif/host");
     e.register_fn("cell-get", Cell::get);
     e.register_fn("cell-get-mut", Cell::get_mut);
     e.register_fn("cell-set!", Cell::set);
